@@ -237,6 +237,31 @@ for _k, _v in ROUND9.items():
     CHECKS[_k]["text"] = CHECKS[_k]["text"] + _v
 
 
+ROUND10 = {
+    "C01": " Consumers removed before the run; a model that rewrites the table it reads with the writer listed first.",
+    "C02": " Empty metadata lists; whole decimals written without a decimal point; axis names of NetCDF tables.",
+    "C03": " Valid cells equal to NumPy's fill values in written files; weights that cancel.",
+    "C04": " Valid cells equal to NumPy's fill values.",
+    "C05": " Reads compared with the table in few-row models; NetCDF axes named lon / lat, x / y.",
+    "C06": " Producers that inherit their fuzziness; the choice written in another letter case; operators in command files under both dialects.",
+    "C07": " Command files over a reused table (empty metadata, a cell next to the marker); 16-bit NetCDF integers combined.",
+    "C08": " Yes / no parameters written in a command file.",
+    "C10": " Adjacent quoted strings; written order in files mixing both dialects.",
+    "C11": " Faults evaluated through .result; fields of different lengths listed on separate lines.",
+    "C12": " 200-character names; a referenced command removed after a run; faulty models through the tool.",
+    "C13": " Edited programs run again; long number lists with one bad item.",
+    "C14": " Far writers, the 2.0 layout under MPilot names, commands named True / False; a cyclic text that does not load is a failure.",
+    "C15": " Commands replaced the documented way; nested lists in an untyped list input.",
+    "C16": " A renaming READ next to a result of the old name.",
+    "C17": " Column names with backslashes written in a command file; the tool through a linked command file.",
+    "C18": " Fields of different rank in one write; packed variables; failed library checks through the tool.",
+    "C19": " User commands named like 2.0 keywords; a libraries list extended later; the collection returned by get_commands emptied.",
+    "C20": " The libraries' own parameter objects; empty metadata in live runs.",
+}
+for _k, _v in ROUND10.items():
+    CHECKS[_k]["text"] = CHECKS[_k]["text"] + _v
+
+
 def main():
     props = [json.loads(l) for l in open(os.path.join(VERIF, "properties.jsonl"))]
     checks = []
